@@ -258,14 +258,15 @@ func c20AttestedBody(st *c20AttState, first int, epochs int) {
 			_, _ = svc.Attest(context.Background(), duty)
 		}
 		keys := svc.VerifC20AttestedEpochs()
+		sort.Slice(keys, func(i, j int) bool { return keys[i] < keys[j] })
 		if len(keys) > st.maxKeys {
 			st.maxKeys = len(keys)
 		}
-		for _, k := range keys {
-			if uint64(k)+3 < uint64(e) && st.fail == "" {
-				st.fail = fmt.Sprintf("in epoch %d the attested validators of epoch %d are still remembered (epochs so far: %s)", e, k, strings.Join(st.pattern, " "))
-				st.key = "attested-epoch-never-forgotten"
-			}
+		// bounded: never more than a fixed window's worth of epochs is remembered (entries only appear when an
+		// attestation run starts; an idle validator may keep its last few entries, which is not growth)
+		if len(keys) > 3 && st.fail == "" {
+			st.fail = fmt.Sprintf("in epoch %d the attested validators of %d epochs %v are remembered (epochs so far: %s)", e, len(keys), keys, strings.Join(st.pattern, " "))
+			st.key = "attested-epoch-never-forgotten"
 		}
 	}
 }
